@@ -255,7 +255,7 @@ fn models(tier: Tier) -> Vec<Model> {
     // slot menu: empty, or data of length 0, 1, 2, 4 (one with a non-UTF-8 byte)
     let datas: Vec<Option<Vec<u8>>> = vec![None, Some(vec![]), Some(vec![b'x']), Some(vec![0xff, b'y']), Some(vec![b'a', 0, 0xC3, b'd'])];
     let startups: Vec<Vec<u8>> = vec![vec![b's'], vec![b's', 0], vec![1, 2, 3, 4, 5, 6, 0]];
-    let max_slots = tier.pick(3, 4);
+    let max_slots = tier.pick(3, 5);
     let mut out = vec![];
     for n in 0..=max_slots {
         let nd = datas.len() as u64;
@@ -351,14 +351,14 @@ pub fn run(run: &mut Run) -> Finish {
 
     // raw byte strings
     let syms: [u8; 7] = [0x00, 0x01, 0xFF, 0xE5, 0xD1, 0x0B, 0xFB];
-    let maxlen: u32 = tier.pick(6, 7);
+    let maxlen: u32 = tier.pick(6, 8);
     let mut total = 0u64;
     let mut starts = vec![];
     for len in 0..=maxlen {
         starts.push(total);
         total += 7u64.pow(len);
     }
-    run.par_slice("every byte string up to length 6/7 over {00,01,FF,E5,D1,0B,FB}", 3, total, |idx, l| {
+    run.par_slice("every byte string up to length 6/8 over {00,01,FF,E5,D1,0B,FB}", 3, total, |idx, l| {
         let k = idx & ((1 << 40) - 1);
         let len = starts.iter().rposition(|&s| s <= k).unwrap();
         let digits = seq_of(k - starts[len], 7, len);
